@@ -137,6 +137,17 @@ func Epoch() int64 { return curEpoch }
 //go:norace
 func nthreadsPlain() int32 { return nthreads }
 
+// BackgroundOn: start the periodic background tasks pike hands to Background (the upstream library's health-check
+// ticker). Off by default: see the instrumenter.
+var BackgroundOn bool
+
+// Background is what the instrumented code calls instead of `go f()` for such a task.
+func Background(f func()) {
+	if BackgroundOn {
+		go f()
+	}
+}
+
 // NoteForeign is called by shims when an uncontrolled goroutine performs a
 // shimmed operation during a run.
 func NoteForeign() {
@@ -503,9 +514,9 @@ type Exec struct {
 	WaitInfo  string
 	Foreign   int64
 	TicksUsed int
-	Detached  int  // threads detached by the watchdog (see StuckTimeout)
+	Detached  int    // threads detached by the watchdog (see StuckTimeout)
 	StuckDump string // all goroutine stacks at the moment of the first detachment
-	Diverged  bool // the schedule prefix did not fit (only with Options.TolerateDivergence)
+	Diverged  bool   // the schedule prefix did not fit (only with Options.TolerateDivergence)
 	// MaxBlocked reports, per OpYield resource id, the set of thread ids that were
 	// observed disabled (blocked on a lock or channel) at some node — used by the
 	// "not queued" monitors.
